@@ -1,7 +1,7 @@
 (* OrcaSpec.v — what "behaves like a single map" means for the orchestrators, as
    definitions (no proofs here). The reference behaviour of a request on one map [s] is the
    one-tier orchestrator over one backend: [ref_run]. MapSpec.spec_step is tied to it by
-   [outcome_of] (theorem l1only_matches_spec in OrcaProofs.v). *)
+   [outcome_of] (lemma ref_is_mapspec in OrcaProofs.v, theorem c01_ref_is_mapspec). *)
 From Rend Require Import base.Bytes gen.Consts_gen spec.MapSpec orca.Types handlers.Std orca.Orcas proto.Resp.
 From Coq Require Import Permutation.
 Open Scope N_scope.
